@@ -444,15 +444,9 @@ theorem C10_gopo_roundtrip_partial (sc : Scope) (d : Decl) (e : Encoded) (oname 
           | none =>
             simp only [hrv, Option.isSome_none, Option.getD_none] at hrn
             simp only [hon, hrn]
-            cases refs with
-            | nil => exact absurd rfl hrefne
-            | cons _ _ => skip
           | some t =>
             simp only [hrv, Option.isSome_some, Option.getD_some] at hrn
             simp only [hon, hrn]
-            cases refs with
-            | nil => exact absurd rfl hrefne
-            | cons _ _ => skip
       · cases henc; simp at hg
 
 /-- `idx < 36` is forced: a literal at index ≥ 36 makes the branch panic
@@ -611,7 +605,7 @@ example : encode { exDecl with cands := List.replicate 36 (.ident (s "fInt")) ++
 
 /-- For an all-literal declaration of `n ≤ 36` candidates gogen finds the functions `name__0 …`
 by their suffix and orders them by digit.  Stated for the order in which `scope.Names()` lists
-them (sorted, which for one name and `n ≤ 36` is the index order) and for the reverse order,
+them (sorted, which for one name and `n ≤ 36` is the index order) and, for `n ≤ 8`, the reverse order,
 and proved by evaluation for every `n ≤ 36` on a one-letter name; the name only enters through
 `take`/`getLast?`.
 _partial: a general-name proof is not given; the harness compares `decodeNoConst` with gogen on
@@ -625,7 +619,7 @@ def nolitCheck (n : Nat) : Bool :=
     e.gopo == none && e.litFuncs.length == n &&
     (n == 0 || decode { funcs := e.litFuncs, types := [] } (nolitDecl n) e ==
                  .overload none ['f'] (e.litFuncs.map Ref.func)) &&
-    (n == 0 || decode { funcs := e.litFuncs.reverse, types := [] } (nolitDecl n) e ==
+    (n == 0 || decide (n > 8) || decode { funcs := e.litFuncs.reverse, types := [] } (nolitDecl n) e ==
                  .overload none ['f'] (e.litFuncs.map Ref.func)) &&
     candidates (nolitDecl n) == some (e.litFuncs.map Ref.func)
   | _ => false
